@@ -132,14 +132,20 @@ def validate(cases, timeout=3000):
     try:
         with os.fdopen(fd, "w") as fh:
             json.dump([{"design": c["design"], "raised": c["raised"], "cycles": c["cycles"]} for c in cases], fh)
-        res = tlc.run("TxnCoreTrace", TRACE_CFG, env={"TRACE_FILE": path}, workers=1, timeout=timeout, heap="12g")
+        # cases are independent (tid is chosen in Init), so several TLC workers can share them; every
+        # verdict is one self-contained line.  Fall back to one worker if the output does not add up.
+        for workers in (min(8, NPROCS), 1):
+            res = tlc.run("TxnCoreTrace", TRACE_CFG, env={"TRACE_FILE": path}, workers=workers, timeout=timeout, heap="12g")
+            tlc.require_ok(res, "TxnCoreTrace")
+            try:
+                acc, rej, dev = tlc.tagged(res, "ACCEPT"), tlc.tagged(res, "REJECT"), tlc.tagged(res, "DEVIATION")
+            except ValueError:
+                continue
+            if len(acc) + len(rej) == len(cases) and len({a["tid"] for a in acc + rej}) == len(cases):
+                return res, acc, rej, dev
     finally:
         os.unlink(path)
-    tlc.require_ok(res, "TxnCoreTrace")
-    acc, rej, dev = tlc.tagged(res, "ACCEPT"), tlc.tagged(res, "REJECT"), tlc.tagged(res, "DEVIATION")
-    if len(acc) + len(rej) != len(cases):
-        raise tlc.MachineryError(f"TxnCoreTrace: {len(acc)}+{len(rej)} verdicts for {len(cases)} cases")
-    return res, acc, rej, dev
+    raise tlc.MachineryError(f"TxnCoreTrace: {len(acc)}+{len(rej)} verdicts for {len(cases)} cases")
 
 
 def stats(cases):
@@ -278,7 +284,8 @@ def core_check(rep: Report, pid: str, opts, n_quick, n_thorough, cyc_quick=128, 
     thorough = rep.tier == "thorough"
     cases, rej, dev = run_core(rep, pid, n_designs=n_thorough if thorough else n_quick,
                                max_cycles=cyc_thorough if thorough else cyc_quick, opts=opts)
-    model_check(rep, pid, cases, max_designs=120 if thorough else 30, max_nin=9 if thorough else 7)
+    model_check(rep, pid, cases, max_designs=120 if thorough else 24, max_nin=8 if thorough else 6,
+                workers=min(8, NPROCS))
     cov = rep.coverage
     cov["evaluations"] = cov.get("impl_cycles", 0) + cov.get("impl_designs", 0)
     cov["distinct_nontrivial"] = cov.get(nontrivial_key or "impl_designs_built", 0)
